@@ -34,7 +34,7 @@ func genC19(tier string, seed int64) []Case {
 	nb := 12
 	sizes := []int{1, 2, 5, 10, 20, 40}
 	if tier == "thorough" {
-		nb = 120
+		nb = 400
 	}
 	for i := 0; i < nb; i++ {
 		add(c19Desc{Kind: "mix", N: sizes[i%len(sizes)], Salt: fmt.Sprintf("%d-%d", seed, i)})
